@@ -40,7 +40,7 @@ CHECKS = {
    "The race detector sees only accesses this workload performs; schedules are provoked, not enumerated; reloads are comment-only so data must be carried over.", "§4 C11"),
  "C12": ("fault_enumeration", "fault injection at every export failure point + post-attempt lock/goroutine oracle (run under -race)",
    "Complete grid for stores up to 3x3 (thorough 4x4): Prometheus Write and /metrics with each kind of unrepresentable item at every (metric, label set); graphite/statsd/collectd with a writer failing at every k-th write (through the verif write hook) and real tcp/unix/udp peers closing early; /varz /graphite /json with the request cancelled before the first metric and at every response write, with and without a failing ResponseWriter. After each attempt TryLock on every metric, no goroutine parked in EmitLabelSets, and a write-locking update plus another export complete.",
-   "The lock oracle is time-free; the leaked-goroutine verdict polls for 1s before deciding; the progress probe has a 20s watchdog.", "§4 C12"),
+   "The lock oracle is time-free; the leaked-goroutine verdict polls for 1s before deciding; the progress probe has a 90s watchdog.", "§4 C12"),
  "C13": ("exploration", "expected-exposition monitor: store spec vs parsed Prometheus text, both scrape paths",
    "3k/150k random stores (every kind/type, 0-3 keys, 0-5 label sets, extreme and non-finite values, hostile label values incl. invalid UTF-8, same name in several programs) scraped through registry+promhttp handler and through Exporter.Write with prog label and timestamps on/off; parsed with expfmt and compared series by series (name, labels, type, bit-exact value, cumulative buckets, +Inf=count, sum, timestamps in ms).",
    "expfmt.TextParser trusted; String-typed non-text metrics: value not checked; known finding C13-b (Write path, same name with different key sets).", "§4 C13"),
@@ -55,7 +55,7 @@ CHECKS = {
    "The barrier makes 'the tailer has observed each step' a logical condition; a stuck barrier is reported with a goroutine dump (violation when the stream did not end / the path was not tailed again, else inconclusive).", "§4 C16"),
  "C17": ("exploration", "offline checker over recorded write and delivery logs of real pipes / sockets / stdin with random chunking, delays and cancellation (under -race)",
    "60/1500 schedules per stream type (named pipe, unix and tcp stream sockets with 1-4 concurrent connections in one-shot and continuous mode, unixgram and udp with 1-3 senders) plus 8/150 stdin runs through a re-exec'd helper: random chunk sizes (cuts inside a line and inside CRLF), random delays, unterminated tails, closes, cancellation before any data / mid-way / after everything. Per writer the delivered lines must equal the written ones in order plus the tail once (or be a prefix after an early cancel), no delivered line may contain two writers' ids, and the output channel must close after the writer closes (pipes, one-shot) or after cancellation.",
-   "'Ends' uses a 20s watchdog with a goroutine dump as witness; a 0.5ms broadcast of the stream waker stands in for mtail's poll timer; datagram senders are paced.", "§4 C17"),
+   "'Ends' uses a 60s watchdog with a goroutine dump as witness; a 0.5ms broadcast of the stream waker stands in for mtail's poll timer; datagram senders are paced.", "§4 C17"),
  "C18": ("exploration", "reference matcher vs real Tailer on the real filesystem, behavioural probes + step barriers (under -race)",
    "Three fixed configurations x every history of length <=2 (quick) / <=3 (thorough) over 12 steps, plus 120/3000 random configurations (1-3 overlapping absolute/relative patterns, optional ignore regex) with random length-10/15 histories over a 2-directory tree; after each step + pattern poll a unique probe line is appended to every file of the tree: probes of files in the reference matcher's expected set must be delivered exactly once, all others never, and log_count must equal the expected set's size.",
    "Reference matcher is path/filepath.Match over model paths + ignore regex on the base name; relative patterns are exercised by chdir-ing the test process into the tree.", "§4 C18"),
